@@ -110,54 +110,91 @@ def topBaseSimple (f : FontIn) : DictL :=
    optEntry (!f.ulThickDefault) 3076 [f.ulThick]) ++
   fontMatrixEntry (f.fontMatrix.getD defaultFM) false
 
-theorem prepare_simple (std : List String) (f : FontIn) (hros : f.ros = none)
-    (henc : f.enc = .standard ∨ f.enc = .expert) (cs : Bytes)
+/-- what `prepare` decides about the encoding of a simple font -/
+def encPlan (std : List String) (f : FontIn) : Outcome (Option Bytes × Bool) :=
+  match f.enc with
+  | .standard => .ok (none, false)
+  | .expert => .ok (none, true)
+  | .custom e =>
+    match encodeEncoding e ((stringsLookupAll std [] f.names).1.map fun (n : Nat) => (n : Int)) with
+    | .ok b => .ok (some b, false)
+    | .err x => .err x
+    | .panic s => .panic s
+
+theorem prepare_simple (std : List String) (f : FontIn) (hros : f.ros = none) (encB : Option Bytes) (expert : Bool)
+    (henc : encPlan std f = .ok (encB, expert)) (cs : Bytes)
     (hcs : encodeCharset ((stringsLookupAll std [] f.names).1.map fun (n : Nat) => (n : Int)) = .ok cs)
     (hi1 : idxOk [f.fontName] = true) (hi2 : idxOk f.charStrings = true) :
     prepare std f = .ok
-      ({ nameIndex := outOk (indexEncode [f.fontName]), encoding := none, charsets := cs, fdSelect := none,
+      ({ nameIndex := outOk (indexEncode [f.fontName]), encoding := encB, charsets := cs, fdSelect := none,
          charStrings := outOk (indexEncode f.charStrings), custom0 := (stringsLookupAll std [] f.names).2,
-         topBase := topBaseSimple f ++ optEntry (isExpert f.enc) 16 [Operand.int 1],
+         topBase := topBaseSimple f, expert := expert,
          privBase := f.privs.map fun p => makePrivateDict p f.defWidth f.nomWidth,
          fdBase := (List.range f.privs.length).map fun i => fontMatrixEntry (f.fdMatrices.getD i defaultFM) false },
        mkSecs f) := by
   unfold prepare
   simp only [hros, Option.isSome_none, Bool.false_eq_true, if_false]
-  rcases henc with he | he
-  · simp [he, hcs, topBaseSimple, isExpert, optEntry, hi1, hi2]
-  · simp [he, hcs, topBaseSimple, isExpert, optEntry, hi1, hi2]
+  unfold encPlan at henc
+  cases he : f.enc with
+  | standard =>
+    rw [he] at henc; simp only at henc
+    injection henc with henc; injection henc with h1 h2; subst h1; subst h2
+    simp [hcs, topBaseSimple, hi1, hi2]
+  | expert =>
+    rw [he] at henc; simp only at henc
+    injection henc with henc; injection henc with h1 h2; subst h1; subst h2
+    simp [hcs, topBaseSimple, hi1, hi2]
+  | custom e =>
+    rw [he] at henc; simp only at henc
+    cases hee : encodeEncoding e ((stringsLookupAll std [] f.names).1.map fun (n : Nat) => (n : Int)) with
+    | err x => rw [hee] at henc; cases henc
+    | panic x => rw [hee] at henc; cases henc
+    | ok bb =>
+      rw [hee] at henc; simp only at henc
+      injection henc with henc; injection henc with h1 h2; subst h1; subst h2
+      simp [hee, hcs, topBaseSimple, hi1, hi2]
 
+/-- the value of the Encoding operator: the offset of the encoding section, or 1 (Expert) -/
+def enc16 (encB : Option Bytes) (expert : Bool) (off5 : Int) : Option Int :=
+  match encB with
+  | some _ => some off5
+  | none => if expert then some 1 else none
+
+/-- the top DICT of a simple font, given the numbers that depend on the layout -/
+def topSimple (f : FontIn) (e16 : Option Int) (pdSize pdOffs csOffs cstrOffs : Int) : DictL :=
+  topBaseSimple f ++ [(18, [.int pdSize, .int pdOffs])] ++ [(15, [.int csOffs])] ++
+    optEntry e16.isSome 16 [.int (e16.getD 0)] ++ [(17, [.int cstrOffs])]
 
 /-- the sections of a simple font with one private DICT, as a function of the offsets -/
-structure SimpleSecs (std : List String) (f : FontIn) (p : PrivIn) (cs : Bytes) (offs : List Int) where
+structure SimpleSecs where
   privBlob : Bytes
   top : DictL
   topData : Bytes
   custom : List String
   B : List Bytes
 
-def simpleSecs (std : List String) (f : FontIn) (p : PrivIn) (cs : Bytes) (offs : List Int) :
-    SimpleSecs std f p cs offs :=
+def simpleSecs (std : List String) (f : FontIn) (p : PrivIn) (encB : Option Bytes) (expert : Bool) (cs : Bytes)
+    (offs : List Int) : SimpleSecs :=
   let off (i : Nat) : Int := offs.getD i 0
   let privBlob := (encodeDictS std [] (privDictOf p f.defWidth f.nomWidth (off 11 - off 10))).1
-  let top := (topBaseSimple f ++ optEntry (isExpert f.enc) 16 [Operand.int 1]) ++
-    [(18, [.int privBlob.length, .int (off 10)])] ++ [(15, [.int (off 6)])] ++ [(17, [.int (off 8)])]
+  let top := topSimple f (enc16 encB expert (off 5)) privBlob.length (off 10) (off 6) (off 8)
   let e := encodeDictS std (stringsLookupAll std [] f.names).2 top
   { privBlob := privBlob, top := top, topData := e.1, custom := e.2,
     B := [[1, 0, 4, UInt8.ofNat (offsSize (off 12))], outOk (indexEncode [f.fontName]), outOk (indexEncode [e.1]),
-          outOk (indexEncode (e.2.map strToBlob)), [0, 0], [], cs, [], outOk (indexEncode f.charStrings), [],
+          outOk (indexEncode (e.2.map strToBlob)), [0, 0], encB.getD [], cs, [], outOk (indexEncode f.charStrings), [],
           privBlob, [0, 0]] }
 
-theorem mkBlobs_simple (std : List String) (f : FontIn) (p : PrivIn) (hp : f.privs = [p]) (cs : Bytes) (offs : List Int) :
+theorem mkBlobs_simple (std : List String) (f : FontIn) (p : PrivIn) (hp : f.privs = [p]) (encB : Option Bytes)
+    (expert : Bool) (cs : Bytes) (offs : List Int) :
     mkBlobs std false
-      { nameIndex := outOk (indexEncode [f.fontName]), encoding := none, charsets := cs, fdSelect := none,
+      { nameIndex := outOk (indexEncode [f.fontName]), encoding := encB, charsets := cs, fdSelect := none,
         charStrings := outOk (indexEncode f.charStrings), custom0 := (stringsLookupAll std [] f.names).2,
-        topBase := topBaseSimple f ++ optEntry (isExpert f.enc) 16 [Operand.int 1],
+        topBase := topBaseSimple f, expert := expert,
         privBase := f.privs.map fun p => makePrivateDict p f.defWidth f.nomWidth,
         fdBase := (List.range f.privs.length).map fun i => fontMatrixEntry (f.fdMatrices.getD i defaultFM) false }
-      (mkSecs f) offs = (simpleSecs std f p cs offs).B := by
-  simp [mkBlobs, mkSecs, hp, simpleSecs, privDictOf, List.range_succ]
-
+      (mkSecs f) offs = (simpleSecs std f p encB expert cs offs).B := by
+  cases encB <;> cases expert <;>
+    simp [mkBlobs, mkSecs, hp, simpleSecs, privDictOf, List.range_succ, topSimple, enc16, optEntry]
 
 /-! ### the Top DICT of a simple font -/
 
@@ -175,18 +212,14 @@ theorem keys_fontMatrixEntry (fm : List Rl) (b : Bool) : ((fontMatrixEntry fm b)
 theorem mem_fontMatrixEntry {fm : List Rl} {b : Bool} {e : Nat × List Operand} (h : e ∈ fontMatrixEntry fm b) :
     e = (3079, fm.map realOperand) := mem_optEntry h
 
-/-- the top DICT of a simple font, given the numbers that depend on the layout -/
-def topSimple (f : FontIn) (pdSize pdOffs csOffs cstrOffs : Int) : DictL :=
-  (topBaseSimple f ++ optEntry (isExpert f.enc) 16 [Operand.int 1]) ++
-    [(18, [.int pdSize, .int pdOffs])] ++ [(15, [.int csOffs])] ++ [(17, [.int cstrOffs])]
-
-theorem topSimple_keys_nodup (f : FontIn) (a b c d : Int) : ((topSimple f a b c d).map (·.1)).Nodup := by
-  have hsub : ((topSimple f a b c d).map (·.1)).Sublist
-      [0, 1, 3072, 2, 3, 4, 3073, 3074, 3075, 3076, 3079, 16, 18, 15, 17] := by
+theorem topSimple_keys_nodup (f : FontIn) (e16 : Option Int) (a b c d : Int) :
+    ((topSimple f e16 a b c d).map (·.1)).Nodup := by
+  have hsub : ((topSimple f e16 a b c d).map (·.1)).Sublist
+      [0, 1, 3072, 2, 3, 4, 3073, 3074, 3075, 3076, 3079, 18, 15, 16, 17] := by
     simp only [topSimple, topBaseSimple, List.map_append]
-    have e : ([0, 1, 3072, 2, 3, 4, 3073, 3074, 3075, 3076, 3079, 16, 18, 15, 17] : List Nat)
-        = ([0] ++ [1] ++ [3072] ++ [2] ++ [3] ++ [4] ++ [3073] ++ [3074] ++ [3075] ++ [3076] ++ [3079] ++ [16])
-          ++ [18] ++ [15] ++ [17] := rfl
+    have e : ([0, 1, 3072, 2, 3, 4, 3073, 3074, 3075, 3076, 3079, 18, 15, 16, 17] : List Nat)
+        = ([0] ++ [1] ++ [3072] ++ [2] ++ [3] ++ [4] ++ [3073] ++ [3074] ++ [3075] ++ [3076] ++ [3079])
+          ++ [18] ++ [15] ++ [16] ++ [17] := rfl
     rw [e]
     repeat' apply List.Sublist.append
     all_goals first
@@ -195,10 +228,10 @@ theorem topSimple_keys_nodup (f : FontIn) (a b c d : Int) : ((topSimple f a b c 
       | exact List.Sublist.refl _
   exact List.Nodup.sublist hsub (by decide)
 
-theorem topSimple_kinds (std c : List String) (f : FontIn) (h : TopDom f) (a b cc d : Int)
-    (ha : I32 a) (hb : I32 b) (hc : I32 cc) (hd : I32 d) :
-    ∀ e ∈ topSimple f a b cc d, EntryKind std c e (e.1, e.2.map decOperand) := by
-  intro e he
+theorem topSimple_kinds (std c : List String) (f : FontIn) (h : TopDom f) (e16 : Option Int) (a b cc d : Int)
+    (he : I32 (e16.getD 0)) (ha : I32 a) (hb : I32 b) (hc : I32 cc) (hd : I32 d) :
+    ∀ e ∈ topSimple f e16 a b cc d, EntryKind std c e (e.1, e.2.map decOperand) := by
+  intro e he'
   have one : ∀ (o : Operand), ValidOperand o → ∀ o' ∈ [o], ValidOperand o' := by
     intro o ho o' h'; simp at h'; subst h'; exact ho
   have strK : ∀ (op : Nat) (s : String), op ∈ [0, 1, 3072, 2, 3, 4] →
@@ -213,60 +246,59 @@ theorem topSimple_kinds (std c : List String) (f : FontIn) (h : TopDom f) (a b c
     simp only [List.mem_cons, List.mem_nil_iff, or_false] at hop
     rcases hop with rfl | rfl | rfl | rfl | rfl | rfl | rfl | rfl | rfl <;>
       exact .plain _ args (by unfold EncOp; omega) (by decide) hv
-  simp only [topSimple, topBaseSimple, List.mem_append, List.mem_singleton] at he
-  rcases he with ((((((((((((((he | he) | he) | he) | he) | he) | he) | he) | he) | he) | he) | he) | he) | he) | he)
-  · rw [mem_optEntry he]; exact strK 0 _ (by simp)
-  · rw [mem_optEntry he]; exact strK 1 _ (by simp)
-  · rw [mem_optEntry he]; exact strK 3072 _ (by simp)
-  · rw [mem_optEntry he]; exact strK 2 _ (by simp)
-  · rw [mem_optEntry he]; exact strK 3 _ (by simp)
-  · rw [mem_optEntry he]; exact strK 4 _ (by simp)
-  · rw [mem_optEntry he]; exact plainK 3073 _ (by simp) (one _ (by simp [ValidOperand]))
-  · rw [mem_optEntry he]; exact plainK 3074 _ (by simp) (one _ (realOperand_valid _ h.angle))
-  · rw [mem_optEntry he]; exact plainK 3075 _ (by simp) (one _ h.ulPos)
-  · rw [mem_optEntry he]; exact plainK 3076 _ (by simp) (one _ h.ulThick)
-  · rw [mem_fontMatrixEntry he]
+  simp only [topSimple, topBaseSimple, List.mem_append, List.mem_singleton] at he'
+  rcases he' with ((((((((((((((he' | he') | he') | he') | he') | he') | he') | he') | he') | he') | he') | he') | he') | he') | he')
+  · rw [mem_optEntry he']; exact strK 0 _ (by simp)
+  · rw [mem_optEntry he']; exact strK 1 _ (by simp)
+  · rw [mem_optEntry he']; exact strK 3072 _ (by simp)
+  · rw [mem_optEntry he']; exact strK 2 _ (by simp)
+  · rw [mem_optEntry he']; exact strK 3 _ (by simp)
+  · rw [mem_optEntry he']; exact strK 4 _ (by simp)
+  · rw [mem_optEntry he']; exact plainK 3073 _ (by simp) (one _ (by simp [ValidOperand]))
+  · rw [mem_optEntry he']; exact plainK 3074 _ (by simp) (one _ (realOperand_valid _ h.angle))
+  · rw [mem_optEntry he']; exact plainK 3075 _ (by simp) (one _ h.ulPos)
+  · rw [mem_optEntry he']; exact plainK 3076 _ (by simp) (one _ h.ulThick)
+  · rw [mem_fontMatrixEntry he']
     exact plainK 3079 _ (by simp) (by
       intro o ho
       obtain ⟨x, hx, rfl⟩ := List.mem_map.mp ho
       exact realOperand_valid _ (h.fm x hx))
-  · rw [mem_optEntry he]; exact plainK 16 _ (by simp) (one _ (by simp [ValidOperand]))
-  · rw [he]; exact plainK 18 _ (by simp) (by
+  · rw [he']; exact plainK 18 _ (by simp) (by
       intro o ho
       simp only [List.mem_cons, List.mem_nil_iff, or_false] at ho
       rcases ho with rfl | rfl
       · exact ha
       · exact hb)
-  · rw [he]; exact plainK 15 _ (by simp) (one _ hc)
-  · rw [he]; exact plainK 17 _ (by simp) (one _ hd)
-
+  · rw [he']; exact plainK 15 _ (by simp) (one _ hc)
+  · rw [mem_optEntry he']; exact plainK 16 _ (by simp) (one _ he)
+  · rw [he']; exact plainK 17 _ (by simp) (one _ hd)
 
 /-- the Top DICT of a simple font decodes to its own entries (sorted), with respect to the final
 string table -/
-theorem topSimple_decode (std c : List String) (f : FontIn) (h : TopDom f) (a b cc d : Int)
-    (ha : I32 a) (hb : I32 b) (hc : I32 cc) (hd : I32 d)
-    (hlen : std.length + (encodeDictS std c (topSimple f a b cc d)).2.length < 2147483647) :
-    decodeDict std.toArray (encodeDictS std c (topSimple f a b cc d)).2.toArray
-        (encodeDictS std c (topSimple f a b cc d)).1
-      = .ok ((sortDict (topSimple f a b cc d)).map fun e => (e.1, e.2.map decOperand)) := by
-  have := decode_encodeDictS std c (topSimple f a b cc d) (fun e => (e.1, e.2.map decOperand))
-    (fun _ => rfl) (topSimple_keys_nodup f a b cc d) (topSimple_kinds std c f h a b cc d ha hb hc hd) hlen []
+theorem topSimple_decode (std c : List String) (f : FontIn) (h : TopDom f) (e16 : Option Int) (a b cc d : Int)
+    (he : I32 (e16.getD 0)) (ha : I32 a) (hb : I32 b) (hc : I32 cc) (hd : I32 d)
+    (hlen : std.length + (encodeDictS std c (topSimple f e16 a b cc d)).2.length < 2147483647) :
+    decodeDict std.toArray (encodeDictS std c (topSimple f e16 a b cc d)).2.toArray
+        (encodeDictS std c (topSimple f e16 a b cc d)).1
+      = .ok ((sortDict (topSimple f e16 a b cc d)).map fun e => (e.1, e.2.map decOperand)) := by
+  have := decode_encodeDictS std c (topSimple f e16 a b cc d) (fun e => (e.1, e.2.map decOperand))
+    (fun _ => rfl) (topSimple_keys_nodup f e16 a b cc d) (topSimple_kinds std c f h e16 a b cc d he ha hb hc hd) hlen []
   simpa using this
 
 /-- what the Top DICT of a simple font holds for every operator `Read` looks at -/
-theorem dGet_topSimple (f : FontIn) (a b c d : Int) :
-    dGet (topSimple f a b c d) 17 = [.int d] ∧ dGet (topSimple f a b c d) 15 = [.int c] ∧
-    dGet (topSimple f a b c d) 18 = [.int a, .int b] ∧
-    dGet (topSimple f a b c d) 3078 = [] ∧ dGet (topSimple f a b c d) 3102 = [] ∧
-    dGet (topSimple f a b c d) 16 = (if isExpert f.enc then [Operand.int 1] else []) ∧
-    dGet (topSimple f a b c d) 3079
+theorem dGet_topSimple (f : FontIn) (e16 : Option Int) (a b c d : Int) :
+    dGet (topSimple f e16 a b c d) 17 = [.int d] ∧ dGet (topSimple f e16 a b c d) 15 = [.int c] ∧
+    dGet (topSimple f e16 a b c d) 18 = [.int a, .int b] ∧
+    dGet (topSimple f e16 a b c d) 3078 = [] ∧ dGet (topSimple f e16 a b c d) 3102 = [] ∧
+    dGet (topSimple f e16 a b c d) 16 = (if e16.isSome then [Operand.int (e16.getD 0)] else []) ∧
+    dGet (topSimple f e16 a b c d) 3079
       = (if fontMatrixNeeded (f.fontMatrix.getD defaultFM) false then (f.fontMatrix.getD defaultFM).map realOperand else []) ∧
-    dGet (topSimple f a b c d) 3073 = (if f.isFixedPitch then [.int 1] else []) ∧
-    dGet (topSimple f a b c d) 3074 = (if f.italicAngle.2.1 ≠ 0 then [realOperand f.italicAngle] else []) ∧
-    dGet (topSimple f a b c d) 3075 = (if f.ulPosDefault then [] else [f.ulPos]) ∧
-    dGet (topSimple f a b c d) 3076 = (if f.ulThickDefault then [] else [f.ulThick]) ∧
+    dGet (topSimple f e16 a b c d) 3073 = (if f.isFixedPitch then [.int 1] else []) ∧
+    dGet (topSimple f e16 a b c d) 3074 = (if f.italicAngle.2.1 ≠ 0 then [realOperand f.italicAngle] else []) ∧
+    dGet (topSimple f e16 a b c d) 3075 = (if f.ulPosDefault then [] else [f.ulPos]) ∧
+    dGet (topSimple f e16 a b c d) 3076 = (if f.ulThickDefault then [] else [f.ulThick]) ∧
     (∀ (i op : Nat), (i, op) ∈ [(0, 0), (1, 1), (2, 3072), (3, 2), (4, 3), (5, 4)] →
-      dGet (topSimple f a b c d) op = (if f.strs.getD i "" ≠ "" then [.str (f.strs.getD i "")] else [])) := by
+      dGet (topSimple f e16 a b c d) op = (if f.strs.getD i "" ≠ "" then [.str (f.strs.getD i "")] else [])) := by
   refine ⟨?_, ?_, ?_, ?_, ?_, ?_, ?_, ?_, ?_, ?_, ?_, ?_⟩
   all_goals first
     | (intro i op hm
@@ -277,8 +309,7 @@ theorem dGet_topSimple (f : FontIn) (a b c d : Int) :
          first | (split <;> simp_all) | simp)
     | (simp (disch := decide) only [topSimple, topBaseSimple, fontMatrixEntry, dGet, List.find?_append,
          find_optEntry_eq, find_optEntry_ne, List.find?_cons, List.find?_nil, Option.or_none, Option.none_or]
-       first | (split <;> simp_all) | simp)
-
+       first | (cases e16 <;> simp; done) | (split <;> simp_all) | simp)
 
 /-! ### reading the sections of a simple font -/
 
@@ -335,18 +366,22 @@ theorem blobToStr_strToBlob (s : String) (h : ∀ c ∈ s.toList, c.toNat < 256)
   exact String.ofList_toList
 
 
-theorem simpleSecs_top (std : List String) (f : FontIn) (p : PrivIn) (cs : Bytes) (offs : List Int) :
-    (simpleSecs std f p cs offs).top
-      = topSimple f (simpleSecs std f p cs offs).privBlob.length (offs.getD 10 0) (offs.getD 6 0) (offs.getD 8 0) := by
+theorem simpleSecs_top (std : List String) (f : FontIn) (p : PrivIn) (encB : Option Bytes) (expert : Bool)
+    (cs : Bytes) (offs : List Int) :
+    (simpleSecs std f p encB expert cs offs).top
+      = topSimple f (enc16 encB expert (offs.getD 5 0)) (simpleSecs std f p encB expert cs offs).privBlob.length
+          (offs.getD 10 0) (offs.getD 6 0) (offs.getD 8 0) := by
   simp only [simpleSecs, topSimple]
 
-theorem simpleSecs_enc (std : List String) (f : FontIn) (p : PrivIn) (cs : Bytes) (offs : List Int) :
-    ((simpleSecs std f p cs offs).topData, (simpleSecs std f p cs offs).custom)
-      = encodeDictS std (stringsLookupAll std [] f.names).2 (simpleSecs std f p cs offs).top := by
+theorem simpleSecs_enc (std : List String) (f : FontIn) (p : PrivIn) (encB : Option Bytes) (expert : Bool)
+    (cs : Bytes) (offs : List Int) :
+    ((simpleSecs std f p encB expert cs offs).topData, (simpleSecs std f p encB expert cs offs).custom)
+      = encodeDictS std (stringsLookupAll std [] f.names).2 (simpleSecs std f p encB expert cs offs).top := by
   simp only [simpleSecs]
 
-theorem simpleSecs_priv (std : List String) (f : FontIn) (p : PrivIn) (cs : Bytes) (offs : List Int) :
-    (simpleSecs std f p cs offs).privBlob
+theorem simpleSecs_priv (std : List String) (f : FontIn) (p : PrivIn) (encB : Option Bytes) (expert : Bool)
+    (cs : Bytes) (offs : List Int) :
+    (simpleSecs std f p encB expert cs offs).privBlob
       = (encodeDictS std [] (privDictOf p f.defWidth f.nomWidth (offs.getD 11 0 - offs.getD 10 0))).1 := by
   simp only [simpleSecs]
 
@@ -358,8 +393,8 @@ theorem secPos_mono (B : List Bytes) (i j : Nat) (h : i ≤ j) : secPos B i ≤ 
   rw [this, List.flatten_append, List.length_append]
   omega
 
-theorem find_topSimple_ros (f : FontIn) (a b c d : Int) :
-    (topSimple f a b c d).find? (fun x => decide (x.1 = 3102)) = none := by
+theorem find_topSimple_ros (f : FontIn) (e16 : Option Int) (a b c d : Int) :
+    (topSimple f e16 a b c d).find? (fun x => decide (x.1 = 3102)) = none := by
   simp (disch := decide) only [topSimple, topBaseSimple, fontMatrixEntry, List.find?_append,
     find_optEntry_eq, find_optEntry_ne, List.find?_cons, List.find?_nil, Option.or_none, Option.none_or]
   simp
@@ -543,8 +578,8 @@ theorem realOperand_ne_str (d : Rl) (x : String) : realOperand d ≠ .str x := b
   unfold realOperand; split <;> simp
 
 /-- the strings in the Top DICT of a simple font are FontInfo strings -/
-theorem topSimple_strs (f : FontIn) (ht : TopDom f) (a b c d : Int) (x : String) :
-    (∃ e ∈ topSimple f a b c d, Operand.str x ∈ e.2) → x ∈ f.strs ∨ x = "" := by
+theorem topSimple_strs (f : FontIn) (ht : TopDom f) (e16 : Option Int) (a b c d : Int) (x : String) :
+    (∃ e ∈ topSimple f e16 a b c d, Operand.str x ∈ e.2) → x ∈ f.strs ∨ x = "" := by
   rintro ⟨e, he, hx⟩
   simp only [topSimple, topBaseSimple, fontMatrixEntry, List.mem_append, List.mem_singleton] at he
   have getD_mem : ∀ i, f.strs.getD i "" ∈ f.strs ∨ f.strs.getD i "" = "" := by
@@ -589,18 +624,123 @@ theorem topSimple_strs (f : FontIn) (ht : TopDom f) (a b c d : Int) (x : String)
     intro o ho s hs
     obtain ⟨y, _, rfl⟩ := List.mem_map.mp ho
     exact realOperand_ne_str y s hs
-  · exact numCase _ _ (intNo [1]) (mem_optEntry he)
   · exact numCase _ _ (intNo [a, b]) he
   · exact numCase _ _ (intNo [c]) he
+  · exact numCase _ _ (intNo [e16.getD 0]) (mem_optEntry he)
   · exact numCase _ _ (intNo [d]) he
 
-/-! ### the composition for simple fonts with a predefined encoding -/
+/-! ### readers at a shifted position -/
 
-/-- the domain: a simple font (one private DICT), Standard or Expert encoding -/
+theorem rd_shift (pre data : Bytes) (c n : Nat) : rd (pre ++ data) (pre.length + c) n = rd data c n := by
+  unfold rd
+  by_cases hn : n = 0
+  · simp [hn]
+  · simp only [hn, if_false, List.length_append]
+    have e : (pre ++ data).drop (pre.length + c) = data.drop c := by
+      simp [List.drop_append]
+    rw [e]
+    by_cases h : c + n ≤ data.length
+    · rw [if_pos h, if_pos (by omega)]
+    · rw [if_neg h, if_neg (by omega)]
+
+def shiftC (k : Nat) : Outcome (List Nat × Nat × Nat) → Outcome (List Nat × Nat × Nat)
+  | .ok (r, cur, c) => .ok (r, cur, k + c)
+  | .err e => .err e
+  | .panic s => .panic s
+
+theorem readEncRanges_shift (pre data : Bytes) (n : Nat) : ∀ (k c : Nat) (res : List Nat) (cur : Nat),
+    readEncRanges (pre ++ data) n k (pre.length + c) res cur = shiftC pre.length (readEncRanges data n k c res cur) := by
+  intro k
+  induction k with
+  | zero => intro c res cur; simp [readEncRanges, shiftC]
+  | succ k ih =>
+    intro c res cur
+    unfold readEncRanges
+    rw [Nat.add_assoc, rd_shift, rd_shift]
+    cases rd data c 1 with
+    | none => rfl
+    | some fb =>
+      cases rd data (c + 1) 1 with
+      | none => rfl
+      | some nb =>
+        simp only
+        split
+        · rfl
+        · cases readRange n (beVal nb + 1) (beVal fb) res cur with
+          | ok v => simp only [Nat.add_assoc, ih]
+          | err e => rfl
+          | panic s => rfl
+
+theorem readSups_shift (pre data : Bytes) (cs : List Int) : ∀ (k c : Nat) (res : List Nat) (cur : Nat),
+    readSups (pre ++ data) cs k (pre.length + c) res cur = readSups data cs k c res cur := by
+  intro k
+  induction k with
+  | zero => intro c res cur; simp [readSups]
+  | succ k ih =>
+    intro c res cur
+    unfold readSups
+    rw [Nat.add_assoc, rd_shift, rd_shift]
+    cases rd data c 1 with
+    | none => rfl
+    | some cb =>
+      simp only
+      split
+      · rfl
+      · cases rd data (c + 1) 2 with
+        | none => rfl
+        | some sb =>
+          simp only [Nat.add_assoc, ih]
+
+theorem readPrimary_shift (pre data : Bytes) (c format n : Nat) :
+    readPrimary (pre ++ data) (pre.length + c) format n = shiftC pre.length (readPrimary data c format n) := by
+  unfold readPrimary
+  simp only [Nat.add_assoc, rd_shift, readEncRanges_shift]
+  split
+  · cases rd data (c + 1) 1 with
+    | none => rfl
+    | some nb =>
+      simp only
+      split
+      · rfl
+      · cases rd data (c + 2) (beVal nb) with
+        | none => rfl
+        | some codes =>
+          simp only
+          cases readCodes codes (List.replicate 256 0) 1 with
+          | ok v => simp [shiftC]
+          | err e => rfl
+          | panic s => rfl
+  · split
+    · cases rd data (c + 1) 1 with
+      | none => rfl
+      | some nb => rfl
+    · rfl
+
+theorem readEncoding_shift (pre data : Bytes) (c : Nat) (cs : List Int) :
+    readEncoding (pre ++ data) (pre.length + c) cs = readEncoding data c cs := by
+  unfold readEncoding
+  rw [rd_shift]
+  cases rd data c 1 with
+  | none => rfl
+  | some fb =>
+    simp only [readPrimary_shift]
+    cases readPrimary data c (beVal fb) cs.length with
+    | err e => rfl
+    | panic s => rfl
+    | ok v =>
+      obtain ⟨r, cur, c'⟩ := v
+      simp only [shiftC, rd_shift, Nat.add_assoc, readSups_shift]
+
+/-! ### the composition for simple fonts -/
+
+/-- the domain: a simple font (one private DICT); a custom encoding vector obeys the rules of
+`encodeEncoding` (256 entries, glyph ids inside the font and contiguous) and the glyph names are distinct -/
 structure SimpleDom (std : List String) (f : FontIn) (p : PrivIn) : Prop where
   ros : f.ros = none
   privs : f.privs = [p]
-  enc : f.enc = .standard ∨ f.enc = .expert
+  enc : ∀ e, f.enc = .custom e → e.length = 256 ∧ (∀ g ∈ e, g < f.names.length) ∧
+    (∀ g ∈ e, ∀ g', 0 < g' → g' < g → g' ∈ e) ∧
+    ((stringsLookupAll std [] f.names).1.map fun (n : Nat) => (n : Int)).Nodup
   top : TopDom f
   priv : ∀ sub, I32 sub → PrivDom p f.defWidth f.nomWidth sub
   nameLen : f.fontName.length + 1 < 4294967296
@@ -628,6 +768,13 @@ def operandRl (o : Operand) : Rl :=
   | .real n m e => normReal n m e
   | .str _ => Rl.zero
 
+/-- the encoding vector `Read` is expected to deliver -/
+def nfEncoding (T : Tables) (f : FontIn) : List Nat :=
+  match f.enc with
+  | .standard => encodingByName T.standardEncRev f.names
+  | .expert => encodingByName T.expertEnc f.names
+  | .custom e => e
+
 /-- the normal form of a simple font: what `Read` is expected to deliver -/
 def nfSimple (T : Tables) (f : FontIn) (p : PrivIn) : FontOut :=
   { fontName := f.fontName,
@@ -642,53 +789,88 @@ def nfSimple (T : Tables) (f : FontIn) (p : PrivIn) : FontOut :=
     fds := List.replicate f.charStrings.length 0,
     charset := (stringsLookupAll T.std.toList [] f.names).1.map fun (n : Nat) => (n : Int),
     names := f.names,
-    encoding := encodingByName (if isExpert f.enc then T.expertEnc else T.standardEncRev) f.names,
+    encoding := nfEncoding T f,
     gsubrs := [] }
 
 
-/-- from a successful `writeFont` of a simple font: the charset bytes, the offsets and the layout -/
+theorem prepare_ok_inv (std : List String) (f : FontIn) (hros : f.ros = none) (v : Fixed × Secs)
+    (h : prepare std f = .ok v) :
+    ∃ encB expert cs, encPlan std f = .ok (encB, expert) ∧
+      encodeCharset ((stringsLookupAll std [] f.names).1.map fun (n : Nat) => (n : Int)) = .ok cs := by
+  unfold prepare at h
+  simp only [hros, Option.isSome_none, Bool.false_eq_true, if_false] at h
+  unfold encPlan
+  cases hcs : encodeCharset ((stringsLookupAll std [] f.names).1.map fun (n : Nat) => (n : Int)) with
+  | err x => exfalso; cases he : f.enc <;> simp [he, hcs] at h <;> (split at h <;> simp at h)
+  | panic x => exfalso; cases he : f.enc <;> simp [he, hcs] at h <;> (split at h <;> simp at h)
+  | ok cs =>
+    cases he : f.enc with
+    | standard => exact ⟨_, _, cs, rfl, rfl⟩
+    | expert => exact ⟨_, _, cs, rfl, rfl⟩
+    | custom e =>
+      simp only
+      cases hee : encodeEncoding e ((stringsLookupAll std [] f.names).1.map fun (n : Nat) => (n : Int)) with
+      | ok bb => exact ⟨_, _, cs, rfl, rfl⟩
+      | err x => simp [he, hee] at h
+      | panic x => simp [he, hee] at h
+
+theorem encPlan_cases (std : List String) (f : FontIn) (encB : Option Bytes) (expert : Bool)
+    (h : encPlan std f = .ok (encB, expert)) :
+    (f.enc = .standard ∧ encB = none ∧ expert = false) ∨ (f.enc = .expert ∧ encB = none ∧ expert = true) ∨
+    (∃ e bb, f.enc = .custom e ∧
+      encodeEncoding e ((stringsLookupAll std [] f.names).1.map fun (n : Nat) => (n : Int)) = .ok bb ∧
+      encB = some bb ∧ expert = false) := by
+  unfold encPlan at h
+  cases he : f.enc with
+  | standard =>
+    rw [he] at h; simp only at h
+    injection h with h; injection h with h1 h2
+    exact Or.inl ⟨rfl, h1.symm, h2.symm⟩
+  | expert =>
+    rw [he] at h; simp only at h
+    injection h with h; injection h with h1 h2
+    exact Or.inr (Or.inl ⟨rfl, h1.symm, h2.symm⟩)
+  | custom e =>
+    rw [he] at h; simp only at h
+    cases hee : encodeEncoding e ((stringsLookupAll std [] f.names).1.map fun (n : Nat) => (n : Int)) with
+    | err x => rw [hee] at h; cases h
+    | panic x => rw [hee] at h; cases h
+    | ok bb =>
+      rw [hee] at h; simp only at h
+      injection h with h; injection h with h1 h2
+      exact Or.inr (Or.inr ⟨e, bb, rfl, hee, h1.symm, h2.symm⟩)
+
+/-- from a successful `writeFont` of a simple font: the encoding and charset bytes, the offsets and the layout -/
 theorem simple_layout (std : List String) (f : FontIn) (p : PrivIn) (hd : SimpleDom std f p)
     (file : Bytes) (passes : Nat) (h : writeFont std f = .ok (file, passes)) :
-    ∃ cs offs,
+    ∃ encB expert cs offs,
+      encPlan std f = .ok (encB, expert) ∧
       encodeCharset ((stringsLookupAll std [] f.names).1.map fun (n : Nat) => (n : Int)) = .ok cs ∧
-      file = (simpleSecs std f p cs offs).B.flatten ∧
-      idxOk [(simpleSecs std f p cs offs).topData] = true ∧
-      idxOk ((simpleSecs std f p cs offs).custom.map strToBlob) = true ∧
-      ∀ i, i < 12 → offs.getD i 0 = (secPos (simpleSecs std f p cs offs).B i : Int) := by
+      file = (simpleSecs std f p encB expert cs offs).B.flatten ∧
+      idxOk [(simpleSecs std f p encB expert cs offs).topData] = true ∧
+      idxOk ((simpleSecs std f p encB expert cs offs).custom.map strToBlob) = true ∧
+      ∀ i, i < 12 → offs.getD i 0 = (secPos (simpleSecs std f p encB expert cs offs).B i : Int) := by
   have hi1 : idxOk [f.fontName] = true := idxOk_of_bounds _ (by simp) (by simp [bodyLength]; exact hd.nameLen)
   have hi2 : idxOk f.charStrings = true :=
     idxOk_of_bounds _ (by have := hd.nGlyphs; have := hd.nMax; omega) hd.csBody
-  cases hcs : encodeCharset ((stringsLookupAll std [] f.names).1.map fun (n : Nat) => (n : Int)) with
-  | err x =>
-    exfalso
-    have : prepare std f = .err x := by
-      unfold prepare
-      simp only [hd.ros, Option.isSome_none, Bool.false_eq_true, if_false]
-      rcases hd.enc with he | he <;> simp [he, hcs]
-    unfold writeFont at h; rw [this] at h; cases h
-  | panic x =>
-    exfalso
-    have : prepare std f = .panic x := by
-      unfold prepare
-      simp only [hd.ros, Option.isSome_none, Bool.false_eq_true, if_false]
-      rcases hd.enc with he | he <;> simp [he, hcs]
-    unfold writeFont at h; rw [this] at h; cases h
-  | ok cs =>
-    obtain ⟨fx, sc, offs, hprep, hfile, hfits, hoffs⟩ := writeFont_exit std f file passes h
-    rw [prepare_simple std f hd.ros hd.enc cs hcs hi1 hi2] at hprep
-    injection hprep with hprep
-    injection hprep with hfx hsc
-    subst hfx; subst hsc
-    simp only [hd.ros, Option.isSome_none] at hfile hoffs hfits
-    rw [mkBlobs_simple std f p hd.privs cs offs] at hfile hoffs
-    have hf2 : idxOk [(simpleSecs std f p cs offs).topData] = true ∧
-        idxOk ((simpleSecs std f p cs offs).custom.map strToBlob) = true := by
-      simpa [mkBlobsFits, mkSecs, hd.privs, simpleSecs, privDictOf, List.range_succ] using hfits
-    refine ⟨cs, offs, rfl, hfile, hf2.1, hf2.2, ?_⟩
-    intro i hi
-    have hnum : (mkSecs f).num = 12 := by simp [mkSecs, hd.privs]
-    have hlenB : (simpleSecs std f p cs offs).B.length = 12 := by simp [simpleSecs]
-    exact hoffs i (by rw [hnum]; exact hi) (by rw [hlenB]; omega)
+  obtain ⟨fx, sc, offs, hprep, hfile, hfits, hoffs⟩ := writeFont_exit std f file passes h
+  obtain ⟨encB, expert, cs, hplan, hcs⟩ := prepare_ok_inv std f hd.ros _ hprep
+  rw [prepare_simple std f hd.ros encB expert hplan cs hcs hi1 hi2] at hprep
+  injection hprep with hprep
+  injection hprep with hfx hsc
+  subst hfx; subst hsc
+  simp only [hd.ros, Option.isSome_none] at hfile hoffs hfits
+  rw [mkBlobs_simple std f p hd.privs encB expert cs offs] at hfile hoffs
+  have hf2 : idxOk [(simpleSecs std f p encB expert cs offs).topData] = true ∧
+      idxOk ((simpleSecs std f p encB expert cs offs).custom.map strToBlob) = true := by
+    cases encB <;> cases expert <;>
+      simpa [mkBlobsFits, mkSecs, hd.privs, simpleSecs, privDictOf, List.range_succ, topSimple, enc16, optEntry]
+        using hfits
+  refine ⟨encB, expert, cs, offs, hplan, hcs, hfile, hf2.1, hf2.2, ?_⟩
+  intro i hi
+  have hnum : (mkSecs f).num = 12 := by simp [mkSecs, hd.privs]
+  have hlenB : (simpleSecs std f p encB expert cs offs).B.length = 12 := by simp [simpleSecs]
+  exact hoffs i (by rw [hnum]; exact hi) (by rw [hlenB]; omega)
 
 theorem offsSize_le (i : Int) : 1 ≤ offsSize i ∧ offsSize i ≤ 4 := by
   unfold offsSize; split <;> (try split) <;> (try split) <;> omega
@@ -697,9 +879,11 @@ theorem readFont_writeFont_simple (T : Tables) (f : FontIn) (p : PrivIn) (hd : S
     (file : Bytes) (passes : Nat) (h : writeFont T.std.toList f = .ok (file, passes))
     (hsize : file.length < 2147483648) :
     readFont T file = .ok (nfSimple T f p) := by
-  obtain ⟨cs, offs, hcs, hfile, hfitTop, hfitStr, hoffs⟩ := simple_layout T.std.toList f p hd file passes h
+  obtain ⟨encB, expert, cs, offs, hplan, hcs, hfile, hfitTop, hfitStr, hoffs⟩ :=
+    simple_layout T.std.toList f p hd file passes h
   subst hfile
-  generalize hS : simpleSecs T.std.toList f p cs offs = S at *
+  have hencC := encPlan_cases T.std.toList f encB expert hplan
+  generalize hS : simpleSecs T.std.toList f p encB expert cs offs = S at *
   have hlenB : S.B.length = 12 := by rw [← hS]; simp [simpleSecs]
   -- the sections
   have hB0 : S.B.getD 0 [] = [1, 0, 4, UInt8.ofNat (offsSize (offs.getD 12 0))] := by rw [← hS]; simp [simpleSecs]
@@ -707,7 +891,7 @@ theorem readFont_writeFont_simple (T : Tables) (f : FontIn) (p : PrivIn) (hd : S
   have hB2 : S.B.getD 2 [] = outOk (indexEncode [S.topData]) := by rw [← hS]; simp [simpleSecs]
   have hB3 : S.B.getD 3 [] = outOk (indexEncode (S.custom.map strToBlob)) := by rw [← hS]; simp [simpleSecs]
   have hB4 : S.B.getD 4 [] = [0, 0] := by rw [← hS]; simp [simpleSecs]
-  have hB5 : S.B.getD 5 [] = [] := by rw [← hS]; simp [simpleSecs]
+  have hB5 : S.B.getD 5 [] = encB.getD [] := by rw [← hS]; simp [simpleSecs]
   have hB6 : S.B.getD 6 [] = cs := by rw [← hS]; simp [simpleSecs]
   have hB7 : S.B.getD 7 [] = [] := by rw [← hS]; simp [simpleSecs]
   have hB8 : S.B.getD 8 [] = outOk (indexEncode f.charStrings) := by rw [← hS]; simp [simpleSecs]
@@ -759,10 +943,11 @@ theorem readFont_writeFont_simple (T : Tables) (f : FontIn) (p : PrivIn) (hd : S
   rw [hI3]
   simp only
   -- the custom strings come back (Latin-1 carriers)
-  have hStop : S.top = topSimple f S.privBlob.length (offs.getD 10 0) (offs.getD 6 0) (offs.getD 8 0) := by
-    have := simpleSecs_top T.std.toList f p cs offs; rw [hS] at this; exact this
+  generalize he16 : enc16 encB expert (offs.getD 5 0) = e16
+  have hStop : S.top = topSimple f e16 S.privBlob.length (offs.getD 10 0) (offs.getD 6 0) (offs.getD 8 0) := by
+    have := simpleSecs_top T.std.toList f p encB expert cs offs; rw [hS, he16] at this; exact this
   have hSenc : (S.topData, S.custom) = encodeDictS T.std.toList (stringsLookupAll T.std.toList [] f.names).2 S.top := by
-    have := simpleSecs_enc T.std.toList f p cs offs; rw [hS] at this; exact this
+    have := simpleSecs_enc T.std.toList f p encB expert cs offs; rw [hS] at this; exact this
   have hcustomL1 : ∀ s ∈ S.custom, ∀ c ∈ s.toList, c.toNat < 256 := by
     intro s hs
     have hs' : s ∈ (encodeDictS T.std.toList (stringsLookupAll T.std.toList [] f.names).2 S.top).2 := by
@@ -772,7 +957,7 @@ theorem readFont_writeFont_simple (T : Tables) (f : FontIn) (p : PrivIn) (hd : S
       · simp at h2
       · exact hd.latin s (Or.inl h2)
     · rw [hStop] at h1
-      rcases topSimple_strs f hd.top _ _ _ _ s h1 with h2 | h2
+      rcases topSimple_strs f hd.top _ _ _ _ _ s h1 with h2 | h2
       · exact hd.latin s (Or.inr h2)
       · rw [h2]; intro c hc; simp at hc
   have hcustomBack : (S.custom.map strToBlob).map blobToStr = S.custom := by
@@ -794,8 +979,13 @@ theorem readFont_writeFont_simple (T : Tables) (f : FontIn) (p : PrivIn) (hd : S
     rw [hB10] at h1
     have := secPos_le S.B 11
     unfold I32; omega
-  have htopDec := topSimple_decode T.std.toList (stringsLookupAll T.std.toList [] f.names).2 f hd.top
-    S.privBlob.length (offs.getD 10 0) (offs.getD 6 0) (offs.getD 8 0) hprivLen (hoffB 10 (by omega))
+  have he16B : I32 (e16.getD 0) := by
+    rw [← he16]
+    cases encB with
+    | some bb => exact hoffB 5 (by omega)
+    | none => cases expert <;> simp [enc16, I32]
+  have htopDec := topSimple_decode T.std.toList (stringsLookupAll T.std.toList [] f.names).2 f hd.top e16
+    S.privBlob.length (offs.getD 10 0) (offs.getD 6 0) (offs.getD 8 0) he16B hprivLen (hoffB 10 (by omega))
     (hoffB 6 (by omega)) (hoffB 8 (by omega))
     (by
       rw [← hStop, ← hSenc]
@@ -809,12 +999,12 @@ theorem readFont_writeFont_simple (T : Tables) (f : FontIn) (p : PrivIn) (hd : S
   rw [htopDec]
   simp only
   -- what `Read` finds in the Top DICT
-  have hnd := topSimple_keys_nodup f S.privBlob.length (offs.getD 10 0) (offs.getD 6 0) (offs.getD 8 0)
+  have hnd := topSimple_keys_nodup f e16 S.privBlob.length (offs.getD 10 0) (offs.getD 6 0) (offs.getD 8 0)
   rw [← hStop] at hnd
   have key : ∀ op, dGet ((sortDict S.top).map fun e => (e.1, e.2.map decOperand)) op
       = (dGet S.top op).map decOperand := dGet_decoded S.top hnd
   obtain ⟨g17, g15, g18, g3078, g3102, g16, g3079, g3073, g3074, g3075, g3076, gstr⟩ :=
-    dGet_topSimple f S.privBlob.length (offs.getD 10 0) (offs.getD 6 0) (offs.getD 8 0)
+    dGet_topSimple f e16 S.privBlob.length (offs.getD 10 0) (offs.getD 6 0) (offs.getD 8 0)
   rw [← hStop] at g17 g15 g18 g3078 g3102 g16 g3079 g3073 g3074 g3075 g3076 gstr
   have hhas : dHas ((sortDict S.top).map fun e => (e.1, e.2.map decOperand)) 3102 = false := by
     unfold dHas
@@ -855,6 +1045,7 @@ theorem readFont_writeFont_simple (T : Tables) (f : FontIn) (p : PrivIn) (hd : S
   -- the charset section
   obtain ⟨sb1, sb2, sb3⟩ := stringsLookupAll_bound T.std.toList f.names []
   have hnotdef := hd.notdef
+  have hencdom := hd.enc
   generalize hsids : (stringsLookupAll T.std.toList [] f.names).1 = sids at *
   obtain ⟨tl, htl⟩ : ∃ tl, sids = 0 :: tl := by
     have := hnotdef
@@ -899,7 +1090,7 @@ theorem readFont_writeFont_simple (T : Tables) (f : FontIn) (p : PrivIn) (hd : S
   have hsubI : I32 (offs.getD 11 0 - offs.getD 10 0) := by rw [hpos10, hpos11]; unfold I32; omega
   have hpdom := hd.priv _ hsubI
   have hprivBlob : S.privBlob = encodeDict (privDictOf p f.defWidth f.nomWidth (offs.getD 11 0 - offs.getD 10 0)) := by
-    have := simpleSecs_priv T.std.toList f p cs offs
+    have := simpleSecs_priv T.std.toList f p encB expert cs offs
     rw [hS, encodeDictS_nostr _ _ _ (privDict_nostr p _ _ _ hpdom)] at this
     exact this
   obtain ⟨pd, hpd, f6, f7, f3082, f3083, f3086, f3081, f10, f11, f20, f21, f19⟩ :=
@@ -949,16 +1140,44 @@ theorem readFont_writeFont_simple (T : Tables) (f : FontIn) (p : PrivIn) (hd : S
   rw [hnames]
   simp only
   -- the encoding
-  have h16 : dInt D 16 0 = if isExpert f.enc then 1 else 0 := by
+  have h16 : dInt D 16 0 = e16.getD 0 := by
     unfold dInt; rw [key, g16]
-    cases isExpert f.enc <;> rfl
+    cases e16 <;> rfl
+  have hpos5 : offs.getD 5 0 = (secPos S.B 5 : Int) := hoffs 5 (by omega)
+  have h45 : 4 ≤ secPos S.B 5 := by rw [← hP1]; exact secPos_mono _ _ _ (by omega)
   have hencR : (if dInt D 16 0 = 0 then (Outcome.ok (encodingByName T.standardEncRev f.names) : Outcome (List Nat))
       else if dInt D 16 0 = 1 then .ok (encodingByName T.expertEnc f.names)
       else if dInt D 16 0 < 0 then .err "other"
       else readEncoding S.B.flatten (dInt D 16 0).toNat (sids.map fun (n : Nat) => (n : Int)))
-      = .ok (encodingByName (if isExpert f.enc then T.expertEnc else T.standardEncRev) f.names) := by
-    rw [h16]
-    cases isExpert f.enc <;> simp
+      = .ok (nfEncoding T f) := by
+    rw [h16, ← he16]
+    unfold nfEncoding
+    rcases hencC with ⟨h1, h2, h3⟩ | ⟨h1, h2, h3⟩ | ⟨e, bb, h1, h2, h3, h4⟩
+    · subst h2; subst h3; rw [h1]; simp [enc16]
+    · subst h2; subst h3; rw [h1]; simp [enc16]
+    · subst h3; subst h4; rw [h1]
+      simp only [enc16, Option.getD_some, hpos5]
+      rw [if_neg (by omega), if_neg (by omega), if_neg (by omega)]
+      simp only [Int.toNat_natCast]
+      obtain ⟨d1, d2, d3, d4⟩ := hencdom e h1
+      have hsplit : S.B.flatten = (S.B.take 5).flatten ++ (bb ++ (S.B.drop 6).flatten) := by
+        have := section_split S.B 5 (by omega)
+        rw [hB5] at this
+        simpa [List.append_assoc] using this
+      have hpos : secPos S.B 5 = (S.B.take 5).flatten.length + 0 := by simp [secPos]
+      rw [hsplit, hpos, readEncoding_shift]
+      have hlenS : (sids.map fun (n : Nat) => (n : Int)).length = f.names.length := by
+        simp only [List.length_map]; exact sb3
+      exact readEncoding_encodeEncoding e _ bb _ d1 (by rw [hlenS]; exact d2) d3
+        (by rw [hlenS]; exact hd.nPos) (by rw [hlenS]; have := hd.nMax; omega) d4
+        (by
+          intro x hx
+          obtain ⟨n, hn, rfl⟩ := List.mem_map.mp hx
+          have := sb1 n hn
+          have := hd.nMax
+          simp only [List.length_nil] at *
+          omega)
+        h2
   rw [hencR]
   simp only
   -- the fields
